@@ -1,6 +1,7 @@
 import DispatchVerif.Core.ApplyP
 import DispatchVerif.Core.ApplyLive
 import DispatchVerif.Core.ApplySerial
+import DispatchVerif.Core.ApplyCfg
 /-! # C10 — dispatch_apply invokes every index exactly once and then returns
 
 `ApplyP` models the shared-counter core of `src/apply.c` (`_dispatch_apply_invoke2`): every participating thread (the
@@ -62,5 +63,16 @@ theorem serial_in_order {bits iter : Nat} (h0 : 0 < iter) (hi : iter < 2 ^ bits)
 theorem serial_narrow_index_repeats :
     ApplySerial.serialLoop 2 5 5 0 [] = none ∧ ApplySerial.serialLoop 2 5 40 0 [] = none :=
   ApplySerial.narrow_index_repeats
+
+/-- the number of participants `dispatch_apply_f` chooses: at least the caller, at most one per iteration, at most the
+    parallelism of the machine -/
+theorem participants_bounds {par nested iters : Nat} (hp : 0 < par) (hi : 0 < iters) :
+    1 ≤ ApplyCfg.thrCnt par nested iters ∧ ApplyCfg.thrCnt par nested iters ≤ iters ∧ ApplyCfg.thrCnt par nested iters ≤ par :=
+  ApplyCfg.thrCnt_bounds hp hi
+
+/-- nested applies share the machine -/
+theorem nested_participants_share {par nested iters : Nat} (hn : 0 < nested) :
+    (nested < par → ApplyCfg.thrCnt par nested iters * nested ≤ par) ∧ (par ≤ nested → ApplyCfg.thrCnt par nested iters ≤ 1) :=
+  ApplyCfg.nested_share hn
 
 end C10
